@@ -211,7 +211,7 @@ CHECKS = {
         text="PARTIAL. Proved for every list of sample distances (hence every shape) in the exact-rational model of "
              "parametric()/_filter_segments: C12_filter (no emitted segment travels more than 0.9 res + largest sample spacing; "
              "every emitted segment but the first and last travels more than 0.9 res; lengths add up to the sampled path), "
-             "C12_keeps_last, C12_count (count between T/(0.9res+dmax) and T/(0.9res)+1), C12_sampling (sample step between "
+             "C12_filter_robust (the same bounds with delta of slack for every run whose comparisons are only correct up to an accumulated error delta: covers binary64 rounding in the filter), C12_keeps_last, C12_count (count between T/(0.9res+dmax) and T/(0.9res)+1), C12_sampling (sample step between "
              "res/10 and res/9 of length when L >= res), C12_const_speed (no segment longer than 91/90 res for samples at most "
              "L/n apart), C12_halving (halving never yields fewer segments whenever the finer sampled polyline satisfies "
              "T1(0.45res+dmax2) < 0.9res T2); over R: C12_chord (an arc of length s <= 2r has chord in [s(1 - s^2/24r^2), s]) and "
